@@ -122,10 +122,7 @@ func (m *Monitor) onReady(r *Replica, rd *raft.Ready, hasSnap bool) {
 	}
 	// learner clause, against the replica's own applied configuration (a
 	// snapshot carried by this Ready already reconfigured the raft state).
-	conf, known := r.app.conf, r.app.confKnown
-	if hasSnap {
-		conf, known = rd.Snapshot.Metadata.ConfState, true
-	}
+	conf, known := r.stepConf, r.stepConfKnown
 	if known && hasID(conf.Learners, r.id) {
 		switch r.role {
 		case raft.StateCandidate, raft.StatePreCandidate:
@@ -156,8 +153,10 @@ func (m *Monitor) regVote(r *Replica, term, cand uint64, how string) {
 
 func (m *Monitor) onSend(r *Replica, mm *pb.Message) {
 	if (mm.Type == pb.MsgVoteResp || mm.Type == pb.MsgPreVoteResp) && !mm.Reject {
-		if r.app.confKnown && hasID(r.app.conf.Learners, r.id) {
-			m.s.violate("learner-grants-vote", []string{"C01"}, "replica %d is a learner in its applied configuration and sends a granting %s to %d for term %d", r.id, mm.Type, mm.To, mm.Term)
+		// judged against the configuration in effect when the vote was cast
+		// (the Ready's own committed conf changes are applied after the step)
+		if r.stepConfKnown && hasID(r.stepConf.Learners, r.id) {
+			m.s.violate("learner-grants-vote", []string{"C01"}, "replica %d is a learner in its applied configuration %v/%v and sends a granting %s to %d for term %d", r.id, r.stepConf.Nodes, r.stepConf.Learners, mm.Type, mm.To, mm.Term)
 			return
 		}
 		if mm.Type == pb.MsgVoteResp {
